@@ -698,6 +698,20 @@ int main(int argc, char **argv) {
         while (lst && fgets(path, sizeof path, lst)) { path[strcspn(path, "\n")] = 0; load_corpus_case(id++, path, valid); }
         fclose(fops); fclose(fout); return 0;
     }
+    if (argc >= 5 && !strcmp(argv[1], "docs")) {
+        /* drive docs <seed> <n> <out>: byte documents (valid, near-miss, blind mutants, tiny) as ops for drive_cpp */
+        uint64_t seed = strtoull(argv[2], NULL, 10); long n = atol(argv[3]); FILE *o = fopen(argv[4], "w"); if (!o) return 2;
+        S = 88172645463325252ULL ^ (seed * 0x9E3779B97F4A7C15ULL); for (int i = 0; i < 8; i++) r64();
+        for (long id = 0; id < n; id++) {
+            int fault = chance(50);
+            gen_doc(&D, chance(5), fault, 2 + (int)rn(14));
+            if (chance(4)) D.n = rn(3);
+            if (chance(2)) { D.n = 0; gen_deep(&D, 8 + (int)rn(5), 0); }
+            char *h = hexs(D.b, D.n);
+            fprintf(o, "C %ld\nxd%d %d %s\n", id, 1 + (int)rn(3), chance(50) ? 0 : 200, h); free(h);
+        }
+        fclose(o); return 0;
+    }
     fprintf(stderr, "usage: drive gen <profile> <seed> <n> <ops> <impl> [thorough] | replay <ops> <impl> | corpus <list> <valid> <ops> <impl>\n");
     return 2;
 }
